@@ -14,7 +14,7 @@ from contracts.c90_doc import BOUND, doc_inputs, lines_of, expected_lines, kern_
 
 
 # ================================================================================================================ C12
-GARBAGE = ['4d@x', '2a@x', '4d@', '4E·J', '4zz', 'zz', '4c&&&', '4cR', '4c4c%', '=1x%', '*clefQ9', 'c4@', '@', '4%', '8..', '%%', '4c##x#', 'Ñ', '4c\x7f']
+GARBAGE = ['4d@x', '2a@x', '4d@', '4E·J', '4c ', '4r ', '4zz', 'zz', '4c&&&', '4cR', '4c4c%', '=1x%', '*clefQ9', 'c4@', '@', '4%', '8..', '%%', '4c##x#', 'Ñ', '4c\x7f']
 
 
 @contract(None, props=['C12'], bounded=BOUND + '; 1..3 cells replaced by malformed text (unknown characters, wrong order, truncated, valid + garbage)')
